@@ -7,7 +7,7 @@ import z3
 
 from .exprs import Bag, MethodRef
 from .state import State
-from .types import (BOOL, FLOAT, INT, NONE, TBool, TFloat, TInt, TMap, TOpt, TSeq, TSet, TTuple, comps, zsort)
+from .types import (BOOL, FLOAT, INT, NONE, TBool, TFloat, TInt, TMap, TOpaque, TOpt, TSeq, TSet, TTuple, comps, zsort)
 from . import values as vals
 from .values import (EngineError, V, coerce, fresh, fresh_name, mk_bool, mk_float, mk_int, mk_tuple, opt_isnone,
                      opt_val, py_eq, truth, tuple_items)
@@ -76,6 +76,10 @@ class CompMixin:
                 et = vals.join_type(et, x.t)
             s = vals.seq_from_list(et, [coerce(x, et) for x in items])
             return st, Domain("seq", length=s.zs[0], elem=lambda i: vals.seq_at(s, i), et=et)
+        if isinstance(t, TOpaque):
+            # iterating a value of unknown type: some sequence of values of unknown type (and it may raise)
+            st, s = self.to_seq(st, v)
+            return st, Domain("seq", length=s.zs[0], elem=lambda i: vals.seq_at(s, i), et=s.t.elem)
         raise EngineError(f"cannot iterate over {t}")
 
     def bind_target(self, st: State, target, v: V) -> State:
